@@ -916,6 +916,7 @@ func (m *Machine) runPath(fn *ssa.Function, args []value) {
 	m.Inputs = m.Inputs[:0]
 	m.nInputs = 0
 	m.curSteps = 0
+	m.havocN = 0
 	m.depth = 0
 	m.mergeLvl = 0
 	for _, pm := range m.models {
